@@ -267,7 +267,7 @@ class C08(Prop):
     lean_modules = ["PkgProofs.Props.C08"]
     theorems = ["C08.str_roundtrip", "C08.str_idempotent", "C08.url_xor_spec", "C08.eq_is_pep503_and_spec_eq",
                 "C08.eq_equivalence", "C08.hash_agrees", "C08.extras_as_set", "C08.marker_after_url_needs_ws",
-                "C08.requirement_marker_eq_marker", "C08.parse_wf", "C08.parsed_roundtrip", "C08.requirement_roundtrip", "C08.parse_render", "C08.Examples.lay_ok", "ReqLayout.parseSource_layout",
+                "C08.requirement_marker_eq_marker", "C08.parse_wf", "C08.parsed_roundtrip", "C08.requirement_roundtrip", "C08.parse_render", "C08.specifier_is_specifierset", "C08.Examples.lay_ok", "ReqLayout.parseSource_layout",
                 "ReqLayout.check_clause", "ReqLayout.versionMany_layout", "ReqLayout.parseExtras_layout",
                 "ReqLayout.parseReqMarker_text", "ReqLayout.mkSpecSet_raw", "C08.Examples.glued_semicolon", "C08.Examples.f05_rejected",
                 "C08.Examples.f06_str_depends_on_order", "C08.Examples.specifier_rule_tied",
